@@ -176,8 +176,11 @@ def run(pid, tier, seed):
     t0 = time.time()
     d = outdir(pid)
     binp = build_harness(d)
-    part = collect(pid, tier, seed, d, binp)
-    return finish(pid, tier, seed, d, t0, [("batch", part)])
+    parts = [("batch", collect(pid, tier, seed, d, binp))]
+    if pid == "C08":
+        import fam_pool
+        parts.append(("pool", fam_pool.collect(pid, tier, seed, d)))   # the worker pool's own bound
+    return finish(pid, tier, seed, d, t0, parts)
 
 
 def replay(bundle):
